@@ -308,7 +308,7 @@ theorem runBytes_more (k : Kind) (s acc : Bytes) (h : (runBytes k s acc).st = .m
     split at h
     · simp at h
     · next hd =>
-      simp only [hd, if_false]
+      simp only [hd]
       cases hs : stepByte k b with
       | fail => simp [hs] at h
       | next k' o =>
@@ -459,7 +459,7 @@ theorem runBody_closed_form (k : Kind) (hwf : WF k) (buf0 : Bytes) (segs : List 
       have hwfk : WF p.kind := by rw [hk]; exact runBytes_wf k _ [] hwf
       have hd : isDone p.kind = false := by rw [hk]; exact hmore.2
       simp only [if_true, atEof, hpf, drainAll_eq _ _ hwfk, hb, runBytes, hd]
-      simp only [Bool.false_eq_true, if_false, List.append_nil, hout, hrout, Option.getD_some, hk, true_and]
+      simp only [Bool.false_eq_true, if_false, List.append_nil, hout, hrout, hk, true_and]
       by_cases he : r.kind = .eof <;> simp [he]
 
 
@@ -516,7 +516,7 @@ theorem runBytes_fam (k : Kind) (s acc : Bytes) (h : (runBytes k s acc).st ≠ .
     split
     · rfl
     · next hd =>
-      simp only [hd, if_false] at h
+      simp only [hd] at h
       cases hs : stepByte k b with
       | fail => simp [hs] at h
       | next k' o =>
